@@ -44,6 +44,42 @@ fn enc_reuse(s: &Setup, plain: &Plaintext, mode: i32, r: &mut Rng) -> Ciphertext
     if mode == 3 { s.encryptor.encrypt(plain, &mut d); } else { s.encryptor.encrypt_symmetric(plain, &mut d); }
     d
 }
+/// a caller-supplied mask generator: random seed, 0 / a few / almost a whole buffer of bytes already consumed
+fn u_prng(r: &mut Rng) -> heathcliff::util::BlakeRNG {
+    use rand::{RngCore, SeedableRng};
+    let mut seed = [0u8; 64]; for i in 0..8 { seed[8 * i..8 * i + 8].copy_from_slice(&r.next().to_le_bytes()); }
+    let mut g = heathcliff::util::BlakeRNG::from_seed(heathcliff::util::PRNGSeed(seed));
+    let mut skip = vec![0u8; *r.pick(&[0usize, 0, 3, 64, 4090, 4096])]; g.fill_bytes(&mut skip);
+    g
+}
+/// modes 5..8: the `*_with_u_prng` entry points (5 public key value-returning, 6 public key into a used destination, 7 secret key into a used
+/// destination, 8 secret key with saved seed, expanded); reported on the case line as modes 0 / 0 / 1 / 2
+fn enc_uprng(s: &Setup, plain: &Plaintext, mode: i32, r: &mut Rng) -> Ciphertext {
+    let mut g = u_prng(r);
+    match mode {
+        5 => s.encryptor.encrypt_new_with_u_prng(plain, &mut g),
+        6 => { let mut d = dirty_destination(s, r); s.encryptor.encrypt_with_u_prng(plain, &mut g, &mut d); d }
+        7 => { let mut d = dirty_destination(s, r); s.encryptor.encrypt_symmetric_with_u_prng(plain, &mut g, &mut d); d }
+        _ => { let c = s.encryptor.encrypt_symmetric_new_with_u_prng(plain, &mut g); if c.contains_seed() { c.expand_seed(&s.ctx) } else { c } }
+    }
+}
+/// encryptions of zero at a level: 0 / 1 the plain `_new_at` forms (public key / secret key + seed), 2..5 the `_at_with_u_prng` forms (public key into a
+/// used destination, public key value-returning, secret key into a used destination, secret key + seed), 6 / 7 (first level) `encrypt_zero` and
+/// `encrypt_zero_with_u_prng` into a used destination.  Returns (ciphertext, mode on the case line: 0 public key, 1 secret key)
+fn enc_zero(s: &Setup, pid: &ParmsID, mode: i32, r: &mut Rng) -> (Ciphertext, i32) {
+    let ex = |c: Ciphertext| if c.contains_seed() { c.expand_seed(&s.ctx) } else { c };
+    let mut g = u_prng(r);
+    match mode {
+        0 => (s.encryptor.encrypt_zero_new_at(pid), 0),
+        1 => (ex(s.encryptor.encrypt_zero_symmetric_new_at(pid)), 1),
+        2 => { let mut d = dirty_destination(s, r); s.encryptor.encrypt_zero_at_with_u_prng(pid, &mut g, &mut d); (d, 0) }
+        3 => (s.encryptor.encrypt_zero_new_at_with_u_prng(pid, &mut g), 0),
+        4 => { let mut d = dirty_destination(s, r); s.encryptor.encrypt_zero_symmetric_at_with_u_prng(pid, &mut g, &mut d); (d, 1) }
+        5 => (ex(s.encryptor.encrypt_zero_symmetric_new_at_with_u_prng(pid, &mut g)), 1),
+        6 => { let mut d = dirty_destination(s, r); s.encryptor.encrypt_zero(&mut d); (d, 0) }
+        _ => { let mut d = dirty_destination(s, r); s.encryptor.encrypt_zero_with_u_prng(&mut g, &mut d); (d, 0) }
+    }
+}
 fn enc_mode(s: &Setup, plain: &Plaintext, mode: i32) -> Ciphertext {
     match mode {
         0 => s.encryptor.encrypt_new(plain),
@@ -200,9 +236,9 @@ pub fn run(out: &mut Out, thorough: bool, seed: u64, _extra: &[String]) {
                 let scale = 2f64.powi(sb);
                 let vals: Vec<num_complex::Complex64> = (0..n / 2).map(|_| num_complex::Complex64::new(((r.below(2001) as f64) - 1000.0) / 8.0, ((r.below(2001) as f64) - 1000.0) / 8.0)).collect();
                 let plain = match std::panic::catch_unwind(std::panic::AssertUnwindSafe(|| enc.encode_c64_array_new(&vals, Some(pid), scale))) { Ok(p) => p, Err(_) => continue };
-                for mode in 0..5 {
-                    let ct = match std::panic::catch_unwind(std::panic::AssertUnwindSafe(|| if mode < 3 { enc_mode(&s, &plain, mode) } else { enc_reuse(&s, &plain, mode, &mut r) })) { Ok(c) => c, Err(_) => { let m = LAST_PANIC.with(|p| p.borrow().clone()); out.raw(&format!("!FAIL fresh_encrypt {} mode={} :: encryption of a valid plaintext was refused / panicked: {} # encrypt-panic", cls, mode, m.replace('\n', " "))); continue } };
-                    let (mode, rz) = if mode >= 3 { (mode - 3, "-reuse") } else { (mode, "") };
+                for mode in 0..9 {
+                    let ct = match std::panic::catch_unwind(std::panic::AssertUnwindSafe(|| if mode < 3 { enc_mode(&s, &plain, mode) } else if mode < 5 { enc_reuse(&s, &plain, mode, &mut r) } else { enc_uprng(&s, &plain, mode, &mut r) })) { Ok(c) => c, Err(_) => { let m = LAST_PANIC.with(|p| p.borrow().clone()); out.raw(&format!("!FAIL fresh_encrypt {} mode={} :: encryption of a valid plaintext was refused / panicked: {} # encrypt-panic", cls, mode, m.replace('\n', " "))); continue } };
+                    let (mode, rz) = if mode >= 5 { ([0, 0, 1, 2][mode as usize - 5], ["-uprng", "-uprng-reuse", "-uprng-reuse", "-uprng"][mode as usize - 5]) } else if mode >= 3 { (mode - 3, "-reuse") } else { (mode, "") };
                     let cls = format!("{}{}", cls, rz);
                     // `fresh`: ciphertext, the plaintext it was made from (RNS, NTT form), mode; impl = library decryption
                     let pk = plain.data().len() / n;
@@ -216,9 +252,9 @@ pub fn run(out: &mut Out, thorough: bool, seed: u64, _extra: &[String]) {
             let coeffs = boundary_plain(&mut r, n, t, pk);
             let mut plain = Plaintext::new(); plain.resize(coeffs.len()); plain.data_mut().copy_from_slice(&coeffs);
             let trimmed = { let mut c = coeffs.clone(); while c.len() > 1 && *c.last().unwrap() == 0 { c.pop(); } c };
-            for mode in 0..5 {
-                let ct = match std::panic::catch_unwind(std::panic::AssertUnwindSafe(|| if mode < 3 { enc_mode(&s, &plain, mode) } else { enc_reuse(&s, &plain, mode, &mut r) })) { Ok(c) => c, Err(_) => { let m = LAST_PANIC.with(|p| p.borrow().clone()); out.raw(&format!("!FAIL fresh_encrypt {} mode={} :: encryption of a valid plaintext was refused / panicked: {} # encrypt-panic", cls, mode, m.replace('\n', " "))); continue } };
-                let (mode, rz) = if mode >= 3 { (mode - 3, "-reuse") } else { (mode, "") };
+            for mode in 0..9 {
+                let ct = match std::panic::catch_unwind(std::panic::AssertUnwindSafe(|| if mode < 3 { enc_mode(&s, &plain, mode) } else if mode < 5 { enc_reuse(&s, &plain, mode, &mut r) } else { enc_uprng(&s, &plain, mode, &mut r) })) { Ok(c) => c, Err(_) => { let m = LAST_PANIC.with(|p| p.borrow().clone()); out.raw(&format!("!FAIL fresh_encrypt {} mode={} :: encryption of a valid plaintext was refused / panicked: {} # encrypt-panic", cls, mode, m.replace('\n', " "))); continue } };
+                let (mode, rz) = if mode >= 5 { ([0, 0, 1, 2][mode as usize - 5], ["-uprng", "-uprng-reuse", "-uprng-reuse", "-uprng"][mode as usize - 5]) } else if mode >= 3 { (mode - 3, "-reuse") } else { (mode, "") };
                 let cls = format!("{}{}", cls, rz);
                 out.case(&format!("fresh {} {} {}", s.ct_case(&ct), mode, fl(&trimmed)), &format!("{}-p{}-m{}", cls, pk, mode), || s.dec_str(&ct));
                 if rep % 3 == 0 && pk == 6 {
@@ -229,9 +265,12 @@ pub fn run(out: &mut Out, thorough: bool, seed: u64, _extra: &[String]) {
             // encryptions of zero at every level
             if pk == 0 {
                 for pid in s.levels() {
-                    for mode in 0..2 {
-                        let ct = match std::panic::catch_unwind(std::panic::AssertUnwindSafe(|| if mode == 0 { s.encryptor.encrypt_zero_new_at(&pid) } else { let c = s.encryptor.encrypt_zero_symmetric_new_at(&pid); if c.contains_seed() { c.expand_seed(&s.ctx) } else { c } })) { Ok(c) => c, Err(_) => { out.raw(&format!("!FAIL fresh_encrypt {} zero mode={} :: encryption of zero was refused / panicked # encrypt-panic", cls, mode)); continue } };
-                        out.case(&format!("fresh {} {} 0", s.ct_case(&ct), mode), &format!("{}-zero-m{}", cls, mode), || s.dec_str(&ct));
+                    let first = pid == s.levels()[0];
+                    for zmode in 0..(if first { 8 } else { 6 }) {
+                        let mode = zmode;
+                        let (ct, lm) = match std::panic::catch_unwind(std::panic::AssertUnwindSafe(|| enc_zero(&s, &pid, zmode, &mut r))) { Ok(c) => c, Err(_) => { out.raw(&format!("!FAIL fresh_encrypt {} zero mode={} :: encryption of zero was refused / panicked # encrypt-panic", cls, mode)); continue } };
+                        if ct.parms_id() != &pid { out.raw(&format!("!FAIL fresh_level {} zero zmode={} :: the encryption of zero is not at the level that was asked for # {}-zero-level", cls, zmode, cls)); continue; }
+                        out.case(&format!("fresh {} {} 0", s.ct_case(&ct), lm), &format!("{}-zero-m{}{}", cls, lm, ["", "", "-uprng-reuse", "-uprng", "-uprng-reuse", "-uprng", "-first-reuse", "-first-uprng-reuse"][zmode as usize]), || s.dec_str(&ct));
                     }
                 }
             }
